@@ -36,7 +36,8 @@ __all__ = [
 
 @cache
 def find_rule(source: Any, name: str) -> Func | None:
-    for rulename in {name, name.strip('_'), f'_{name}_', f'_{name}'}:
+    # NOTE: in this order: a rule with exactly this name comes first
+    for rulename in (name, name.strip('_'), f'_{name}_', f'_{name}'):
         action = getattr(source, safe_name(rulename), None)
         if callable(action):
             return action
